@@ -109,6 +109,9 @@ def explore(args):
                 for n in targets:
                     steps += 1
                     work = n.clone_from_root()
+                    if path_of(work) != path_of(n) or kind(work) != kind(n):
+                        fails.append({"clause": "clone/locates-node", "cfg": rname, "detail": f"clone_from_root of `{n}` (path '{path_of(n)}') in `{root}` returned the node at '{path_of(work)}' (history {hist})"[:400]})
+                        continue
                     try:
                         res = rule.apply_to(work).result.get_root()
                     except Exception as e:  # noqa: BLE001
